@@ -31,12 +31,16 @@ PROPS = {
         "vx": ["context"],
         # canonical / stable is carried by add_expr, the literal interning path, the cached constants and the growth lemmas;
         # WHAT each operator builder denotes belongs to the chain of C01 (which runs the whole unit)
-        "only": {"context": r"^(add_expr|Context::index|get_true|get_false|bv_lit|bit_vec_val|zero|one|ones|BVLitValue::|lemma_|theorem_)"},
+        "only": {"context": r"^(add_expr|Context::index|Context::default|get_true|get_false|bv_lit|bit_vec_val|zero|one|ones|BVLitValue::|lemma_|theorem_)"},
         "ax": True,
         "level": "proof",
     },
     "C13": {
-        "vx": ["meta"],
+        # simplify_rules / driver are built and verified here only so that a change which takes the rules or the traversal OUT of the
+        # analysable dialect (e.g. iteration over a std HashSet, whose order differs between instances) makes this check undecided;
+        # none of their obligations is counted for C13
+        "vx": ["meta", "simplify_rules", "driver"],
+        "only": {"simplify_rules": r"^$", "driver": r"^$"},
         "kl": ["meta_fixed_point"],
         "level": "proof",
     },
